@@ -138,7 +138,7 @@ def arithmetic_violations(out: Outcome, txs: List[model.Tx], dump: Dict[str, Any
     out.metrics["max_rel_error"] = max_rel
 
 
-E2E_HIST = gen.GenCfg(min_steps=4, max_steps=14, max_exchanges=2, max_holders=2, bulk_prob=0.03)
+E2E_HIST = gen.GenCfg(min_steps=4, max_steps=14, max_exchanges=2, max_holders=2, bulk_prob=0.03, fiat_columns=True)
 E2E_REL = Fraction(1, 10**13)  # the gain cell is a double; proceeds and cost basis are exact decimals inside the HYPERLINK formulas
 
 
